@@ -754,3 +754,63 @@ class WatchStartup(FnSpec):
 def register5(reg):
     for s in (StatusSummaries, StackSummaries, WatchStartup):
         reg.add(s)
+
+
+def _delegate(qual_, target_, params, awaited_, props=("C05",), opt_forward=False, returns_result=True):
+    """C05 (ownership): a ComponentContext method that only forwards to the plain context behind it, with the same arguments, and returns
+    (or raises) what that call returns (raises) - so that whatever a component registers belongs to the surrounding context"""
+    class D(FnSpec):
+        qual = qual_
+        properties = props
+        modifies = "rely"
+        suspends = awaited_
+        may_raise = True
+        param_types = {p: ANY for p in params}
+
+        def requires(self, F):
+            return cc_requires(F)
+
+        def _clauses(self, F, normal):
+            tr = F.new_st.trace
+            c = F.addr("self")
+            ctx = backing(F.old, c)
+            calls = [e for e in tr if e[0] == "spec_call" and e[1] == target_]
+            rets = [e for e in tr if e[0] == "spec_ret" and e[1] == target_]
+            others = [e for e in tr if e[0] in ("opaque", "opaque-raise", "spawn", "fstore", "dstore") or
+                      (e[0] == "spec_call" and e[1] != target_ and not F.eng.reg.specs[e[1]].assumed)]
+            out = [("forwards-exactly-once-and-does-nothing-else", z3.BoolVal(len(calls) == 1 and not others))]
+            for e in calls[:1]:
+                a = e[2]
+                out.append(("forwards-to-the-backing-context-with-the-same-arguments",
+                            z3.And(a["self"].t == ctx, *[a[p].t == F.t(p) for p in params if p in a and not (opt_forward and p == "optional")])))
+                if opt_forward:
+                    out.append(("optional-flag-forwarded", F.eng.truth(F.new_st, a["optional"]) == F.eng.truth(F.new_st, F["optional"])))
+            if normal and returns_result:
+                out.append(("returns-its-result", z3.BoolVal(len(rets) == 1) if len(rets) != 1 else F.result.t == rets[0][3].t))
+            return out
+
+        def local_ensures(self, F):
+            return self._clauses(F, True)
+
+        def local_raises(self, F):
+            return self._clauses(F, False)
+    D.__name__ = "Delegate_" + qual_.rsplit(".", 1)[-1]
+    return D
+
+
+DELEGATES = [
+    _delegate("_component.ComponentContext.get_resource_nowait", "_context.Context.get_resource_nowait", ("type", "name", "optional"), False,
+              props=("C05", "C06"), opt_forward=True),
+    _delegate("_component.ComponentContext.get_resources", "_context.Context.get_resources", ("type",), False),
+    _delegate("_component.ComponentContext.add_teardown_callback", "_context.Context.add_teardown_callback", ("callback", "pass_exception"), False,
+              props=("C05", "C01"), returns_result=False),
+    _delegate("_component.ComponentContext.start_service_task", "_context.Context.start_service_task", ("func", "name", "teardown_action"), True,
+              props=("C05", "C08")),
+    _delegate("_component.ComponentContext.start_background_task_factory", "_context.Context.start_background_task_factory", ("exception_handler",), True,
+              props=("C05", "C09")),
+]
+
+
+def register6(reg):
+    for d in DELEGATES:
+        reg.add(d)
